@@ -11,15 +11,10 @@
   Hypothesis `Block.WF`: the flat names of the symbol slots are pairwise distinct (checked on every
   generated program by the driver), external names contain no `[`, array sizes are positive.
 -/
-import TfelVerif.C45.Lemmas
+import TfelVerif.C45.Spec
 namespace TfelVerif.C45
 
 variable {β : Type}
-
-structure Block.WF (p : Name) (b : Block β) : Prop where
-  distinct : ((slots p b).map (·.1)).Nodup
-  noBracket : ∀ v ∈ allVars b, '[' ∉ v.ext
-  sizes : ∀ v ∈ allVars b, 0 < v.size
 
 /-- **the two sides build the same symbol text**: the name the reader derives from a listed name
 (`v` or `v[i]`) is the name the writer uses for that element. -/
@@ -50,27 +45,6 @@ theorem decompose_rejects_unclosed (ext : Name) (h : '[' ∉ ext) (i : Nat) :
   | cons d ds => rfl
 
 section arrays
-
-theorem mem_head_slots (p : Name) (b : Block β) (k : Name) (v : Val β)
-    (h : (k, some v) ∈
-      [ (catSym p "nMaterialProperties", some (Val.num (totalSize b.mps))),
-        (catSym p "MaterialProperties", some (.strs (expandNames b.mps))),
-        (catSym p "nInternalStateVariables", some (.num (totalSize b.isvs))),
-        (catSym p "InternalStateVariables", some (.strs (expandNames b.isvs))),
-        (catSym p "InternalStateVariablesTypes", some (.ints (expandTypes b.isvs))),
-        (catSym p "nExternalStateVariables", some (.num (totalSize b.esvs))),
-        (catSym p "ExternalStateVariables", some (.strs (expandNames b.esvs))),
-        (catSym p "ExternalStateVariablesTypes", some (.ints (expandTypes b.esvs))),
-        (catSym p "nParameters", some (.num (totalSize (pvars b)))),
-        (catSym p "Parameters", some (.strs (expandNames (pvars b)))),
-        (catSym p "ParametersTypes", some (.ints (expandTypes (pvars b)))) ]) :
-    (k, some v) ∈ slots p b := by
-  unfold slots
-  exact List.mem_append_left _ (List.mem_append_left _ h)
-
-theorem lookup_head (p : Name) (b : Block β) (hwf : b.WF p) (k : Name) (v : Val β)
-    (h : (k, some v) ∈ slots p b) : lookup (emit p b) k = some v :=
-  lookup_written (slots p b) hwf.distinct k (some v) h
 
 /-- names of the material properties, array variables expanded -/
 theorem read_names_mps (p : Name) (b : Block β) (hwf : b.WF p) :
@@ -120,19 +94,6 @@ end arrays
 
 section values
 
-/-- value of a real-valued slot as the reader sees it -/
-theorem getReal_slot (p : Name) (b : Block β) (hwf : b.WF p) (k : Name) (ox : Option β)
-    (h : (k, ox.map Val.real) ∈ slots p b) : getReal (emit p b) k = ox := by
-  have := lookup_written (slots p b) hwf.distinct k (ox.map Val.real) h
-  unfold getReal
-  rw [emit_eq_written, this]
-  cases ox <;> rfl
-
-theorem mem_bndSlots (p : Name) (b : Block β) (v : VarD β) (hv : v ∈ allVars b) (s : Name × Option (Val β))
-    (hs : s ∈ bndSlots p v) : s ∈ slots p b := by
-  unfold slots
-  exact List.mem_append_right _ (List.mem_flatMap.mpr ⟨v, hv, hs⟩)
-
 /-- **bounds and physical bounds**: for every element of every declared variable (material
 property, state variable, external state variable, parameter) the four readers return the declared
 value, and report the bound absent exactly when it was not declared. -/
@@ -152,11 +113,6 @@ theorem read_bounds (p : Name) (b : Block β) (hwf : b.WF p) (v : VarD β) (hv :
     exact getReal_slot p b hwf _ ox (mem_bndSlots p b v hv _ hm)
   refine ⟨key _ _ ?_, key _ _ ?_, key _ _ ?_, key _ _ ?_⟩ <;>
     exact List.mem_flatMap.mpr ⟨e, he, by simp⟩
-
-theorem mem_dfltSlots (p : Name) (b : Block β) (q : ParD β) (hq : q ∈ b.pars) (s : Name × Option (Val β))
-    (hs : s ∈ dfltSlots p q) : s ∈ slots p b := by
-  unfold slots
-  exact List.mem_append_left _ (List.mem_append_right _ (List.mem_flatMap.mpr ⟨q, hq, hs⟩))
 
 /-- **default values of the parameters**: the reader returns the declared default value of every
 element (`p` for a scalar parameter, `p[i]` for an array). -/
